@@ -13,11 +13,16 @@ def run(ctx, bins):
         for (prof, odd) in cfgs:
             for i in range(shards):
                 jobs.append(([bins[prof], "heap-random", "--seed", str(seed * 1000 + i), "--n", str(n), "--odd", str(odd), "--wild", "30", "--maxops", "30" if i % 2 == 0 else "60"], [bins["modelrun"], "heap"]))
-        out = {"mism": [], "stats": {}, "samples": [], "dist": {}, "abnormal": [], "digests": {}, "configs": ["%s/%s" % (p, "odd" if o else "even") for p, o in cfgs]}
+        # arena configuration: byte buffers adjacent in memory (debug build, even addresses), with the two-adjacent-buffers prologue
+        if "debug" in bins:
+            for i in range(2 if tier == "quick" else 6):
+                jobs.append(([bins["debug"], "heap-random", "--seed", str(seed * 1000 + 500 + i), "--n", str(n), "--odd", "0", "--arena", "1", "--wild", "20", "--maxops", "30"], [bins["modelrun"], "heap"]))
+        out = {"mism": [], "stats": {}, "samples": [], "dist": {}, "abnormal": [], "digests": {}, "configs": ["%s/%s" % (p, "odd" if o else "even") for p, o in cfgs] + (["debug/arena"] if "debug" in bins else [])}
         for (rh, rm, o, err), job in zip(core.run_pipes(jobs, timeout=2400), jobs):
             mism, stats, samples, dist = core.parse_model_out(o)
             cfgname = "%s/%s" % ("release" if "/release/" in job[0][0] else "debug", "odd" if job[0][job[0].index("--odd") + 1] == "1" else "even")
             shard = job[0][job[0].index("--seed") + 1]
+            if "--arena" in job[0]: cfgname = "debug/arena"; shard += "a"
             if rh != 0 or rm != 0: out["abnormal"].append("%s [%s]: harness rc=%s modelrun rc=%s %s" % (" ".join(job[0][1:]), cfgname, rh, rm, err[-600:]))
             for m in mism: m["detail"] = "[%s] %s" % (cfgname, m["detail"])
             out["mism"] += mism; out["samples"] += samples[:1]
